@@ -243,6 +243,12 @@ def gen_cases(ctx, n):
     pk = pathkey_attack(rng, 60000)
     if pk:
         out.append(("pathkey_attack", pk[0], pk[1], 0))
+    big = []
+    k0 = rng.randrange(1000)
+    for k in range(10 if ctx.tier == "quick" else 45):
+        ids = hg.Ids()
+        where, t1, t2 = hg.nd_big_pair(rng, ids, k0 + k)
+        big.append(("bigarray:" + where, t1, t2, 0))
     while len(out) < n:
         ids = hg.Ids()
         r = rng.random()
@@ -270,7 +276,10 @@ def gen_cases(ctx, n):
             t1 = hg.value(rng, ids, depth, top=True)
             m, t2 = hg.mutate(rng, t1, ids)
             out.append((m, t1, t2, rng.randrange(100)))
-    return out
+        if len(out) == 8:
+            out += big       # large arrays (byte sizes around multiples of 8192) differing in one element
+            big = []
+    return out + big
 
 
 def run(ctx):
